@@ -247,9 +247,8 @@ class SpecBDD:
         """z3 formula `for all values of all declared bits, t`."""
         used = _consts(t)
         qs = [c for n, c in self.vars.items() if n in used]
-        if not qs:
-            return t
-        return z3.ForAll(qs, t)
+        from ovc import spec as _spec
+        return _spec.forall(qs, t)
 
     def _equiv(self, u, v):
         if z3.eq(u.t, v.t):
